@@ -311,6 +311,10 @@ structure ParamsOut (DT Val : Type) where
   writes : List (Name × Val)
   raised : Bool
 
+def addWrite {Val : Type} (ws : List (Name × Val)) (name : Name) : Option Val → List (Name × Val)
+  | some v => ws ++ [(name, v)]
+  | none => ws
+
 def paramStep {DT Val : Type} (ops : Ops DT Val) (cfg : Cfg Val) (acc : ParamsOut DT Val) (pd : ParamDesc DT Val) :
     ParamsOut DT Val :=
   if acc.raised then acc else
@@ -318,7 +322,7 @@ def paramStep {DT Val : Type} (ops : Ops DT Val) (cfg : Cfg Val) (acc : ParamsOu
   | .raised => { acc with raised := true }
   | .done o =>
     { insts := acc.insts ++ [o.inst], errs := acc.errs ++ o.errs,
-      writes := match o.write with | some v => acc.writes ++ [(pd.name, v)] | none => acc.writes,
+      writes := addWrite acc.writes pd.name o.write,
       raised := false }
 
 def applyParams {DT Val : Type} (ops : Ops DT Val) (ps : List (ParamDesc DT Val)) (cfg : Cfg Val) : ParamsOut DT Val :=
@@ -344,18 +348,31 @@ def checkDatatypes {DT Val : Type} (ops : Ops DT Val) (insts : List (PInst DT Va
     | some dt => if ops.checkDT dt then none else some (.badDatatype p.name)
     | none => none)
 
+/-- "… does not exist (use one of …)": one line for all names left over -/
+def unknownErr (left : List Name) : List CfgErr :=
+  match left with
+  | [] => []
+  | _ :: _ => [.unknownNames left]
+
+/-- everything collected before the final checks -/
+def phase1 {DT Val : Type} (ops : Ops DT Val) (c : ClassDesc DT Val) (cfg : Cfg Val) : List CfgErr :=
+  (applyModProps c.modProps cfg).errs ++ (applyParams ops c.params cfg).errs ++ unknownErr (leftover c cfg)
+
+/-- the final checks (only run when nothing was collected) -/
+def phase2 {DT Val : Type} (ops : Ops DT Val) (c : ClassDesc DT Val) (cfg : Cfg Val) : List CfgErr :=
+  checkMandatory c.modProps (applyModProps c.modProps cfg).values ++
+    checkDatatypes ops (applyParams ops c.params cfg).insts
+
 def applyConfig {DT Val : Type} (ops : Ops DT Val) (c : ClassDesc DT Val) (cfg : Cfg Val) :
     Except (List CfgErr) (Instance DT Val) :=
-  let mp := applyModProps c.modProps cfg
-  if mp.raised then .error [.raised] else
-  let po := applyParams ops c.params cfg
-  if po.raised then .error [.raised] else
-  let left := leftover c cfg
-  let errs := mp.errs ++ po.errs ++ (if left.isEmpty then [] else [.unknownNames left])
-  if !errs.isEmpty then .error errs else
-  let errs2 := checkMandatory c.modProps mp.values ++ checkDatatypes ops po.insts
-  if !errs2.isEmpty then .error errs2 else
-  .ok ⟨mp.values, po.insts, po.writes⟩
+  if (applyModProps c.modProps cfg).raised || (applyParams ops c.params cfg).raised then .error [.raised] else
+  match phase1 ops c cfg with
+  | e :: es => .error (e :: es)
+  | [] =>
+    match phase2 ops c cfg with
+    | e :: es => .error (e :: es)
+    | [] => .ok ⟨(applyModProps c.modProps cfg).values, (applyParams ops c.params cfg).insts,
+                 (applyParams ops c.params cfg).writes⟩
 
 /-! ## the node (secnode.py:99-165) -/
 
